@@ -187,7 +187,10 @@ func (c *client) Execute(
 		StepID: stepData.ID,
 		Config: stepData.InputData,
 	}
-	cborReader := c.decMode.NewDecoder(c.rawAtpChannels)
+	// All reads go through the client's one decoder. A decoder reads ahead, so a decoder created
+	// per execution would take bytes that follow its own messages with it when it is dropped, and
+	// the next one would start in the middle of a message.
+	cborReader := c.decoder
 	if c.atpVersion > 1 {
 		// Wrap it in a runtime message.
 		workStartMsg = RuntimeMessage{RunID: stepData.RunID, MessageID: MessageTypeWorkStart, MessageData: workStartMsg}
